@@ -131,6 +131,113 @@ theorem init_mutex (progs : List (List Act)) :
   | none => rw [hq] at ht; simp at ht
   | some p => rw [hq] at ht; simp at ht; subst ht; simp
 
+/-! #### Protected accesses happen only under the lock, in every reachable state -/
+
+/-- Every thread's remaining program is disciplined at the depth the thread is at. -/
+def DiscInv (s : Sys) : Prop := ∀ (t : Nat) (th : Thread), s.threads[t]? = some th → disciplined th.todo th.depth = true
+
+theorem step_keeps_disc (s s' : Sys) (t : Nat) (h : DiscInv s) (hs : s.step t = some s') : DiscInv s' := by
+  unfold Sys.step at hs
+  cases hth : s.threads[t]? with
+  | none => simp [hth] at hs
+  | some th =>
+    simp only [hth] at hs
+    have hself := h t th hth
+    cases htodo : th.todo with
+    | nil => simp [htodo] at hs
+    | cons a rest =>
+      simp only [htodo] at hs
+      rw [htodo] at hself
+      cases a with
+      | acq =>
+        simp only [] at hs
+        split at hs
+        · injection hs with hs; subst hs
+          intro u thu hu
+          rcases getElem?_set' _ _ _ _ _ hu with ⟨rfl, rfl⟩ | ⟨_, hu'⟩
+          · simpa [disciplined] using hself
+          · exact h u thu hu'
+        · cases hs
+      | rel =>
+        simp only [] at hs
+        split at hs
+        · cases hs
+        · injection hs with hs; subst hs
+          intro u thu hu
+          rcases getElem?_set' _ _ _ _ _ hu with ⟨rfl, rfl⟩ | ⟨_, hu'⟩
+          · simp only [disciplined, Bool.and_eq_true] at hself; exact hself.2
+          · exact h u thu hu'
+      | rdNext | wrNext | wrGen =>
+        all_goals
+          simp only [] at hs
+          injection hs with hs; subst hs
+          intro u thu hu
+          rcases getElem?_set' _ _ _ _ _ hu with ⟨rfl, rfl⟩ | ⟨_, hu'⟩
+          · simp only [disciplined, Bool.and_eq_true] at hself; exact hself.2
+          · exact h u thu hu'
+      | rdGen | branch =>
+        all_goals
+          simp only [] at hs
+          injection hs with hs; subst hs
+          intro u thu hu
+          rcases getElem?_set' _ _ _ _ _ hu with ⟨rfl, rfl⟩ | ⟨_, hu'⟩
+          · simpa [disciplined] using hself
+          · exact h u thu hu'
+
+theorem run_keeps_disc (s : Sys) (h : DiscInv s) (sched : List Nat) : DiscInv (s.run sched) := by
+  induction sched generalizing s with
+  | nil => exact h
+  | cons t ts ih =>
+    unfold Sys.run
+    cases hs : s.step t with
+    | none => exact ih s h
+    | some s' => exact ih s' (step_keeps_disc s s' t h hs)
+
+theorem init_disc (progs : List (List Act)) (h : ∀ p ∈ progs, disciplined p 0 = true) :
+    DiscInv { threads := progs.map (fun p => { todo := p, depth := 0 }), owner := none } := by
+  intro t th ht
+  simp only [List.getElem?_map] at ht
+  cases hq : progs[t]? with
+  | none => rw [hq] at ht; simp at ht
+  | some p =>
+    rw [hq] at ht; simp at ht; subst ht
+    exact h p (List.mem_of_getElem? hq)
+
+/-- **Whoever touches a protected cell owns the lock**: in every state any schedule can reach from
+disciplined programs, a thread whose next action reads or writes `next_row_generator`, or writes
+`row_generator`, is the lock's owner — so (with `mutex`) the protected accesses of two handlers never
+interleave inside a critical section, whatever the interleaving of their statements: each critical
+section acts on the protected cells as one atomic step. -/
+theorem protected_access_by_owner (progs : List (List Act)) (hp : ∀ p ∈ progs, disciplined p 0 = true)
+    (sched : List Nat) (t : Nat) (th : Thread) (a : Act) (rest : List Act)
+    (ht : (({ threads := progs.map (fun p => { todo := p, depth := 0 }), owner := none } : Sys).run sched).threads[t]? = some th)
+    (htodo : th.todo = a :: rest) (ha : a.protected = true) :
+    (({ threads := progs.map (fun p => { todo := p, depth := 0 }), owner := none } : Sys).run sched).owner = some t := by
+  have hm := mutex _ (init_mutex progs) sched
+  have hd := run_keeps_disc _ (init_disc progs hp) sched
+  have hdt := hd t th ht
+  rw [htodo] at hdt
+  have hdepth : th.depth ≠ 0 := by
+    cases a <;> simp [Act.protected] at ha <;> simp [disciplined] at hdt <;> exact hdt.1
+  exact (hm t th ht).mp hdepth
+
+/-- … in particular for the four handlers as they are in `bot.py` today, in any number and mix. -/
+theorem handlers_protected_access_by_owner (progs : List (List Act))
+    (hp : ∀ p ∈ progs, p ∈ [Generated.onRowGenChange, Generated.onSizeChange, Generated.lookTo, Generated.onLookTo])
+    (sched : List Nat) (t : Nat) (th : Thread) (a : Act) (rest : List Act)
+    (ht : (({ threads := progs.map (fun p => { todo := p, depth := 0 }), owner := none } : Sys).run sched).threads[t]? = some th)
+    (htodo : th.todo = a :: rest) (ha : a.protected = true) :
+    (({ threads := progs.map (fun p => { todo := p, depth := 0 }), owner := none } : Sys).run sched).owner = some t := by
+  refine protected_access_by_owner progs ?_ sched t th a rest ht htodo ha
+  intro p hpm
+  have := hp p hpm
+  simp only [List.mem_cons, List.mem_nil_iff, or_false] at this
+  rcases this with rfl | rfl | rfl | rfl
+  · exact ir_disciplined.1
+  · exact ir_disciplined.2.1
+  · exact ir_disciplined.2.2.1
+  · exact ir_disciplined.2.2.2
+
 /-! #### Fate of a selection, at the granularity mutual exclusion justifies -/
 
 /-- **Row-generator change ∥ size change**: the size handler first updates the tower (not under the
